@@ -100,6 +100,32 @@ void h_set_hostname(void)
 }
 #endif
 
+/* Short names only (NUL within the first 6 characters), every loop -- the function's own or a library
+ * model's (strrchr, strlen) -- unwound 8 times with unwinding assertions: decides a body that is NOT the
+ * byte loop (wave-6 seed C03_w6_1: strrchr + memcpy), where the groups above do not finish. */
+#ifdef H_SET_HOSTNAME_S
+void h_set_hostname_s(void)
+{
+	char name[PATH_MAX];
+	char host[PATH_MAX];
+	int len = nondet_int();
+	__CPROVER_assume(len >= 0 && len <= 5);
+	name[len] = '\0';
+	__CPROVER_assume(len < 1 || name[0] != '\0'); __CPROVER_assume(len < 2 || name[1] != '\0');
+	__CPROVER_assume(len < 3 || name[2] != '\0'); __CPROVER_assume(len < 4 || name[3] != '\0');
+	__CPROVER_assume(len < 5 || name[4] != '\0');
+	int cut = 0;
+	while (cut < 6 && name[cut] != '.' && name[cut] != '\0') cut++;
+	int k = nondet_int();
+	__CPROVER_assume(k >= 0 && k < 6);
+	set_hostname(host, name);
+	VASSERT(host[cut] == '\0', "short name: hostname ends where the loom name has its FIRST '.' (or ends)");
+	VASSERT(k >= cut || host[k] == name[k], "short name: hostname is the loom name up to the first '.'");
+	if (len == 5 && name[1] == '.' && name[3] == '.') REACH("a.b.c: cut at the first dot");
+	if (len == 3 && cut == 3) REACH("no dot: whole name");
+}
+#endif
+
 /* ------------------------------------------------------------------------------------
  * set_hostname, UNBOUNDED (loop contract loops/g1_loom.json): g_c is the position of the
  * first '.' or NUL of the name (PATH_MAX-1 if there is none): cell g_c is a terminator and
